@@ -34,11 +34,14 @@ func CheckRecursion(rootTypeName string, rootSchema *schema.Schema) error {
 	}
 
 	rc := &recursionChecker{
-		visited: map[string]struct{}{
-			// Obviously, root type was visited.
-			rootTypeName: {},
-		},
-		path: []string{rootTypeName},
+		visited: map[string]struct{}{},
+		path:    []string{rootTypeName},
+	}
+
+	// Obviously, root type was visited. But only if the root is this type: the
+	// name of the root's file is not a type name.
+	if t, ok := rootSchema.TypesList()[rootTypeName]; ok && t.Schema() == rootSchema {
+		rc.visited[rootTypeName] = struct{}{}
 	}
 
 	return rc.check(rootSchema.RootNode(), rootSchema.TypesList())
